@@ -555,6 +555,9 @@ func progScenarios() []vrt.Scenario {
 	var scs []vrt.Scenario
 	for _, p := range progs {
 		p := p
+		if p.Name == "queued-deliveries-lose-their-context" {
+			continue // three tasks plus queued deliveries with scheduling points in the handlers: C02's and C07's subject, too large to repeat under the race detector
+		}
 		name := "prog " + p.Name
 		sc := vrt.Scenario{Name: name, New: func() vrt.Instance {
 			in := bp.New(p)
